@@ -72,8 +72,33 @@ pub fn gen_set(rng: &mut Rng, profile: usize, max_size: u64) -> BTreeSet<String>
     let alpha = alphabet(profile);
     let mut set = BTreeSet::new();
     let size = rng.range(1, max_size.max(1));
-    let shape = rng.below(6);
+    let shape = if (profile == 4 || profile == 8) && rng.chance(1, 3) { 6 } else { rng.below(6) };
     match shape {
+        // case variants: one base string spelled with members of the same case-folding group. Under
+        // case-insensitive matching several of them lower-case to the same string, some keep their
+        // spelling (the length-preserving guard), some are the lower-case form of others.
+        6 => {
+            const GROUPS: &[&[&str]] = &[
+                &["A", "a"],
+                &["Ä", "ä"],
+                &["İ", "i\u{307}", "i", "I"],
+                &["ß", "ẞ", "ss", "SS"],
+                &["Σ", "σ", "ς"],
+                &["ǅ", "ǆ", "Ǆ"],
+                &["\u{212a}", "k", "K"],
+                &["ſ", "s", "S"],
+                &["x", "X"],
+            ];
+            let len = rng.range(1, 4) as usize;
+            let base: Vec<usize> = (0..len).map(|_| rng.below(GROUPS.len() as u64) as usize).collect();
+            let want = size.max(2);
+            let mut tries = 0;
+            while (set.len() as u64) < want && tries < 40 {
+                tries += 1;
+                let s: String = base.iter().map(|g| *rng.pick(GROUPS[*g])).collect();
+                set.insert(s);
+            }
+        }
         // grid: head x mid x tail with single-character heads and mids and equal-length tails, where the
         // mids (or heads) belong to one convertible class. Same-length strings are ordered by their RAW
         // characters, but the trie is built from the CONVERTED labels, so equivalent trie states can
